@@ -691,17 +691,19 @@ end BuilderSteps
 /-! ## Builder side, program level: edge locality of every program of the `DfBase._wire_up_port` builder families
 
   The step theorems above are lifted to whole programs for the sub-language `BuildLocal.InL` of the builder model's
-  command language (`Build.step`, 62 commands): 38 commands — `Dfg(...)`, `Function(...)`, `TailLoop(...)`,
+  command language (`Build.step`, 62 commands): 41 commands — `Dfg(...)`, `Function(...)`, `TailLoop(...)`,
   `TrackedDfg(...)`, `Module()`, `Conditional(...)`; `add_op`, `add`, `extend` (plain and tracked, with index
   rebinding); `add_nested`, `add_tail_loop`, `add_conditional`, `add_case`, `add_if`, `add_else` (to any depth);
   `set_outputs` of every non-block builder class, `set_loop_outputs`, `declare_outputs`, `add_state_order`;
-  `define_function`, `define_main`, `declare_function`, `add_const`, `add_alias_defn`, `add_alias_decl`; the tracked
-  wire commands; `to_json`.  NOT in it: control-flow graphs and basic blocks (`Block._wire_up_port` admits dominator
-  edges: `block_wire_links` above), `call` / `load` / `load_function` (they add static edges, whose locality the
-  builders do not check) and the `insert_*` family (`insert_hugr` copies another HUGR's links: C08).
+  `define_function`, `define_main`, `declare_function`, `add_const`, `add_alias_defn`, `add_alias_decl`; `call`,
+  `load`, `load_function`; the tracked wire commands; `to_json`.  NOT in it: control-flow graphs and basic blocks
+  (`Block._wire_up_port` admits dominator edges: `block_wire_links` above) and the `insert_*` family (`insert_hugr`
+  copies another HUGR's links: C08).
 
   For every such program that runs without a builder call raising, every HUGR it has built satisfies, for every
-  link into a value port: the target has an ancestor-or-self with the same parent as the source (rule
+  link into a value port — a port at an offset ≥ 0 that is not the static input port of its node (`staticIn`: the
+  function port of a `Call`, port 0 of a `LoadConstant` / `LoadFunction`; the builders do not check where a static
+  edge comes from, so nothing can be claimed for those) —: the target has an ancestor-or-self with the same parent as the source (rule
   R6.relation: the source is a sibling of an ancestor of the target), and if that ancestor is not the target itself
   — the link enters a nested region — the state-order link from the source to that ancestor is present (rule
   R6.order_edge).  No hypothesis on the program beyond membership in the sub-language: arbitrary interleavings of
@@ -718,10 +720,11 @@ open HugrVerif.Build HugrVerif.Store HugrVerif.BuildLocal
     state-order edge** (R6.relation + R6.order_edge on the store of every HUGR the program has built). -/
 theorem dfg_programs_edge_locality (enc : String) (cmds : List Cmd) (st' : BuildState)
     (hL : ∀ c ∈ cmds, InL c) (h : Build.run enc {} cmds = .ok st')
-    (hid : Nat) (s : St) (hs : st'.getHugr hid = .ok s) (l : Port × Port) (hl : l ∈ linksList s) (hv : 0 ≤ l.2.2) :
+    (hid : Nat) (s : St) (hs : st'.getHugr hid = .ok s) (l : Port × Port) (hl : l ∈ linksList s) (hv : 0 ≤ l.2.2)
+    (hns : ¬ ∃ op, nodeOp s l.2.1 = .ok op ∧ staticIn op = some l.2.2.toNat) :
     ∃ anc p, nodeParent s l.1.1 = .ok (some p) ∧ Anc s l.2.1 anc ∧ nodeParent s anc = .ok (some p) ∧
       (anc ≠ l.2.1 → ((l.1.1, (-1 : Int)), (anc, (-1 : Int))) ∈ linksList s) :=
-  ((run_binv enc cmds {} st' hL binv_empty h).stores hid s hs).loc l hl hv
+  ((run_binv enc cmds {} st' hL binv_empty h).stores hid s hs).loc l hl hv hns
 
 /-- The same from any state that satisfies the invariant (programs continue each other). -/
 theorem dfg_programs_keep_invariant (enc : String) (cmds : List Cmd) (st st' : BuildState)
@@ -744,6 +747,9 @@ def prog : List Cmd := [
   .addOp "d1" "n" (.custom "Not" ⟨[B], [B], []⟩ "" "logic" []) [.inp "d0" 0] [],
   .setOutputs "d1" [.idx (.var "n") 0],
   .setOutputs "d0" [.idx (.builder "d1") 0]]
+
+/-- the value link Input(1) → Not(6) of `prog` is not exempt: `Not` has no static input port -/
+example : staticIn (.custom "Not" ⟨[B], [B], []⟩ "" "logic" []) = none := rfl
 
 /-- non-vacuity: the program is in the sub-language, runs, and its HUGR has the non-local value link
     Input(1) → Not(6) with the order link Input(1) → nested DFG(3). -/
